@@ -38,6 +38,9 @@ structure Mem where
   obs : List Nat
   /-- number of `yield?`s executed while alive -/
   nyield : Nat
+  /-- when `dead`: 0 = starved (final status `$short read`), otherwise the error status that a
+  callee returned (a `?` call propagates it: `if (status.repr) goto …`, statement.go) -/
+  code : Nat
   deriving Inhabited, DecidableEq, Repr
 
 /-- Record a computed value. -/
@@ -204,7 +207,7 @@ def oneCfg (interp : Nat → COp) (comb : Nat → Nat → Nat → Nat) : Cfg OW 
   nsusp _ _ _ := 0
   comb e := comb e.tag
 
-def initMem : Mem := ⟨[], 0, false, [], 0⟩
+def initMem : Mem := ⟨[], 0, false, [], 0, 0⟩
 
 /-- The driver's initial world for source bytes `bs` cut into chunks of the given sizes (after
 the list: all the rest) and destination pieces of the given capacities (after the list: 64 KiB
@@ -217,15 +220,32 @@ def initOW (bs : List UInt8) : OW := ⟨bs, [], 0, initMem⟩
 
 /-- A callee as an operation of its caller: its body run to completion from zeroed locals — by
 the generated C (only `R` survives a suspension) in the chunked world, by the language in the
-one-shot world. The value is the last value it computed (its `return` status). `interp` may depend
-on the argument values (`args.…` is not a local of the callee). -/
+one-shot world. The value is the status it `return`s (0 = ok, also when it falls off its end); an
+error status ends the caller too (`status = callee(…); if (status.repr) goto …`): the world is
+frozen with that status as `code`. `interp` may depend on the argument values (`args.…` is not a
+local of the callee). -/
+def calleeFinishC (out : Out) (log : List Nat) (w : CW) : Nat × CW :=
+  let v := if out = Out.ret then log.getLastD 0 else 0
+  (v, if !w.mem.dead && v != 0 then { w with mem := { w.mem with dead := true, code := v } } else w)
+
+def calleeFinishO (out : Out) (log : List Nat) (w : OW) : Nat × OW :=
+  let v := if out = Out.ret then log.getLastD 0 else 0
+  (v, if !w.mem.dead && v != 0 then { w with mem := { w.mem with dead := true, code := v } } else w)
+
 def callExt (R : Nat → Bool) (body : List Stmt) (interp : List Nat → Nat → COp)
     (comb : Nat → Nat → Nat → Nat) (fuel : Nat) : Ext where
   c vals w :=
     let r := run R (chunkCfg (interp vals) comb) fuel (Task.block body) ⟨fun _ => 0, w, []⟩
-    (r.st.log.getLastD 0, r.st.w, (r.evs.filter (· == Ev.susp)).length)
+    let f := calleeFinishC r.out r.st.log r.st.w
+    (f.1, f.2, (r.evs.filter (· == Ev.susp)).length)
   o vals w :=
     let r := run (fun _ => true) (oneCfg (interp vals) comb) fuel (Task.block body) ⟨fun _ => 0, w, []⟩
-    (r.st.log.getLastD 0, r.st.w)
+    calleeFinishO r.out r.st.log r.st.w
+
+/-- An external operation whose arguments are computed from the caller's `this.…` fields and the
+values of the locals the call mentions. -/
+def Ext.mapArgs (x : Ext) (g : List Nat → List Nat → List Nat) : Ext where
+  c vals w := x.c (g w.mem.fields vals) w
+  o vals w := x.o (g w.mem.fields vals) w
 
 end WuffsVerif.Split
